@@ -386,6 +386,17 @@ pub fn run_history(line: &str) -> String {
         let mut n_in_step = 0u64;
         loop {
             let t = if let Some(u) = until {
+                // "dense": {"d": k, "every": ms}: daemon k is additionally woken every `ms`
+                // (more often than it asked), for the exact-vs-dense comparison of C12
+                if let Some(dn) = st.get("dense") {
+                    let k = dn["d"].as_u64().unwrap_or(0) as usize;
+                    let every = dn["every"].as_u64().unwrap_or(50).max(1);
+                    if k < ds.len() && !ds[k].dead {
+                        let nowv = vh::virtual_now().unwrap_or(0);
+                        let next_grid = (nowv / every + 1) * every;
+                        last_wake[k] = Some(last_wake[k].map(|w| w.min(next_grid)).unwrap_or(next_grid));
+                    }
+                }
                 // next wake among all live daemons
                 let w = ds.iter().enumerate().filter(|(_, d)| !d.dead).filter_map(|(i, _)| last_wake[i]).min();
                 match w {
